@@ -18,9 +18,6 @@ DISCHARGED = {
     (DS + "decode_prop_chunk", "unwrap", "unwrap∘self.instances_by_ref.get_mut(referent)"): "PROV:referents — `referent` ranges over type_info.referents, every one of which decode_inst_chunk inserted into instances_by_ref; entries are removed only by finish(self)",
     ("rbx_types::attributes::reader::read_exact_or_none", "index", "tmp[range::RangeFrom{…}]"): "n <= buf.len() by the std::io::Read contract (same reliance as std's read_exact)",
     ("rbx_types::material_colors::MaterialColors::decode", "slice-op", "chunks∘buffer"): "chunk size is the constant 3",
-    ("rbx_types::material_colors::MaterialColors::decode", "index", "color[0]"): "guarded by `buffer.len() != 69 => Err`; 69 = 23*3 so every chunk has 3 bytes",
-    ("rbx_types::material_colors::MaterialColors::decode", "index", "color[1]"): "as above",
-    ("rbx_types::material_colors::MaterialColors::decode", "index", "color[2]"): "as above",
     ("rbx_xml::deserializer::deserialize_properties", "macro:unimplemented", "unimplemented"): "dead wildcard arm over DataType {Value, Enum}: checked below",
     ("<rbx_reflection_database::DATABASE as core::ops::deref::Deref>::deref::__static_ref_initialize", "macro:panic", "panic"): "decoding of the bundled database: C16.load",
     ("<rbx_types::shared_string::SharedString as core::ops::drop::Drop>::drop", "unwrap", "unwrap∘self.data.take()"): "`data` is Some until drop runs (C18.eq: only Drop empties it)",
@@ -88,7 +85,7 @@ def rule_panic(c, prog, g, dreach):
                 # computed discharges (sa.bounds): independent of names, loop order and helper structure
                 if nest is None:
                     nest = bounds.nest_bounds(fn, lambda root, depth, fn=fn: param_dim(fn, root, depth))
-                why_c = bounds.const_index(s) or bounds.enum_index(fn, s) or nest.get(id(s["node"]))
+                why_c = bounds.const_index(s) or bounds.enum_index(fn, s) or nest.get(id(s["node"])) or bounds.guarded_index(fn, s) or bounds.chunk_index(fn, s)
                 if why_c:
                     computed += 1
                     c.ok(R, inst)
